@@ -229,7 +229,6 @@ func (e *Engine) verifyFunc(pkgPath, key string) (rep FuncReport) {
 func (x *Exec) checkPost(s *State, r *retState, ct *Contract) {
 	f := x.fn
 	env := x.specEnvAt(s, f.body.Lbrace+1)
-	env.old = f.entry
 	// results by name
 	for i, o := range f.results {
 		if o.Name() != "" && o.Name() != "_" {
@@ -271,6 +270,13 @@ func (x *Exec) checkPost(s *State, r *retState, ct *Contract) {
 func (x *Exec) checkFrame(s *State, ct *Contract) {
 	f := x.fn
 	entry := f.entry
+	if len(s.oldHeap) > 0 {
+		// guarded state: the frame is relative to its value when the lock was taken
+		entry = entry.clone()
+		for n, term := range s.oldHeap {
+			entry.heap[n] = term
+		}
+	}
 	env := x.specEnvAt(entry, f.body.Lbrace+1)
 	env.old = entry
 	type cell struct {
